@@ -60,12 +60,22 @@ def write_conf(path, root, kind="full", servertype="ThreadingTCPServer", cacheti
 
 
 class Server:
-    def __init__(self, conf, cwd="/", capture_log=False, env=None):
+    def __init__(self, conf, cwd="/", capture_log=False, env=None, capture_err=False):
         errdir = os.environ.get("PGV_LIVE_STDERR")
         self.errfile = open(os.path.join(errdir, "server-%d-%d.err" % (os.getpid(), id(self))), "wb") if errdir else None
+        self.errlines = []
         self.proc = subprocess.Popen([sys.executable, "-W", "ignore", "-c", SERVER_CODE, conf, drive.REPO],
-                                     stdout=subprocess.PIPE, stderr=self.errfile or subprocess.DEVNULL, cwd=cwd,
+                                     stdout=subprocess.PIPE,
+                                     stderr=subprocess.PIPE if capture_err else (self.errfile or subprocess.DEVNULL), cwd=cwd,
                                      env=dict(os.environ, PYTHONDONTWRITEBYTECODE="1", **(env or {})))
+        if capture_err:
+            def pump_err():
+                try:
+                    for raw in self.proc.stderr:
+                        self.errlines.append(raw.decode("latin-1").rstrip("\n"))
+                except (OSError, ValueError):
+                    pass
+            threading.Thread(target=pump_err, daemon=True).start()
         # (with logmethod = file the server's log goes to the same stream; start-up records precede the PORT line)
         self.logs = []
         line = ""
@@ -111,6 +121,20 @@ class Server:
         finally:
             if self.proc.stdout:
                 self.proc.stdout.close()
+
+    def sockets(self):
+        """number of socket descriptors the server process holds (None if unknown)"""
+        try:
+            n = 0
+            for fd in os.listdir("/proc/%d/fd" % self.pid):
+                try:
+                    if os.readlink("/proc/%d/fd/%s" % (self.pid, fd)).startswith("socket:"):
+                        n += 1
+                except OSError:
+                    pass
+            return n
+        except OSError:
+            return None
 
     def alive(self):
         if self.pid != self.proc.pid:
